@@ -251,7 +251,13 @@ def oracle(c):
             for p, b in ws:
                 ins[p] = b
     stim = [(t, ws) for t, ws in stim if t != 0]
-    out.append("T 0/1 C - R - V" + "".join(" " + v for v in val))
+    # power-on callbacks: assert, and release at once when the hold time is zero
+    por = []
+    for s in rpins:
+        por.append((s, K[s]["act"]))
+        if T.hold(s) == 0:
+            por.append((s, not K[s]["act"]))
+    out.append("T 0/1 C - R " + (",".join(f"{s}:{int(lv)}" for s, lv in por) or "-") + " V" + "".join(" " + v for v in val))
 
     # closed-form edge times: the k-th toggle of pin p is at k/(2 f_p); rising iff (k even) == (pin starts high)
     pins = T.clock_pins()
